@@ -1934,3 +1934,6 @@ fn test_nil_not_equal_behavior_false() {
 
     assert_eq!(filter.execute(&ctx), Ok(false));
 }
+
+#[cfg(kani)]
+pub(crate) mod verif_kani;
